@@ -21,7 +21,7 @@ STUBS = ["scheduler (sim/simsched.cpp: decides which real thread runs at every b
 # batches: (engine, flavour, cache_size, runs_quick, runs_thorough)
 CHECKS = {
     "C06": {
-        "batches": [("C06", "asan", 4, 4000, 150000)],
+        "batches": [("C06", "asan", 4, 4000, 60000)],
         "rule": ("one evaluation = one simulated run: 1-6 processor instances (24 kinds: FirFilter R/C, FftFilter R/C, FIRDecimator, FIRInterpolator, "
                  "FIRRateConverter, FIRResampler, Delay R/C, MedianFilter, MAFilter R/C, HilbertFilter, Tuner, Agc R/C, Compressor, Limiter, NoiseGate, "
                  "LMS/NLMS R/C, RLS R/C) with seeded parameters, streams and framings, interleaved on 1-4 simulated threads with churn. "
